@@ -570,6 +570,28 @@ func main() {
 		if hugeCases != nil {
 			hugeCases(submit)
 		}
+		// a root with an RSA key of its own: the slot certificate is signed by the DEVICE key. A well-formed signature
+		// made with the key of the root that issued the device certificate (or of any other certificate the chain
+		// runs through) is a signature by somebody else.
+		{
+			rootK, dev := keys[1], keys[0]
+			rsaRoot, _ := p.issue(&rootK.priv.PublicKey, nil, rootK.priv, now.Add(-480*time.Hour), now.Add(48000*time.Hour))
+			pool2 := x509.NewCertPool()
+			pool2.AddCert(rsaRoot)
+			att2 := yubiattest.NewAttestorWithCAPool(pool2)
+			f9b, _ := p.issue(&dev.priv.PublicKey, rsaRoot, rootK.priv, now.Add(-48*time.Hour), now.Add(4800*time.Hour))
+			tbs := gen.Bytes(r.CaseAlways("rsa-root", 0).Rand, 300)
+			for _, h := range hashes {
+				for _, null := range []bool{true, false} {
+					t := append(append([]byte{}, h.prefix(null)...), h.sum(tbs)...)
+					form := fmt.Sprintf("%s/null=%v", h.name, null)
+					c1 := next()
+					runCase(r, c1, att2, f9b, attCase{What: "signed-by-the-device-key-under-an-rsa-root:" + form, Expect: "accept", Alg: int(h.alg), KeyBits: dev.priv.N.BitLen(), Roots: hex.EncodeToString(rsaRoot.Raw)}, dev.signRaw(em(dev.k, t)), tbs)
+					c2 := next()
+					runCase(r, c2, att2, f9b, attCase{What: "signed-by-the-issuing-root's-key-instead-of-the-device-key:" + form, Expect: "reject", Alg: int(h.alg), KeyBits: dev.priv.N.BitLen(), Roots: hex.EncodeToString(rsaRoot.Raw)}, rootK.signRaw(em(rootK.k, t)), tbs)
+				}
+			}
+		}
 		sampled := 0
 		for ki, d := range keys {
 			bits := d.priv.N.BitLen()
